@@ -7,5 +7,6 @@ Open Scope string_scope.
 
 Definition api (ask : string -> list val -> val) : list api_entry := [
   ("xmr_encode", fun a => match a with [VB b] => rb (xmr_encode b) | _ => bad_call end);
-  ("xmr_decode", fun a => match a with [VB s] => rb (xmr_decode s) | _ => bad_call end)
+  ("xmr_decode", fun a => match a with [VB s] => rb (xmr_decode s) | _ => bad_call end);
+  ("xmr_decode_current", fun a => match a with [VB s] => rb (xmr_decode_current s) | _ => bad_call end)
 ].
